@@ -22,6 +22,8 @@ pub enum Kind {
     Tomb,
     HashF,
     HashG,
+    /// HDEL f: the hash with field f tombstoned at the update's stamp
+    HashDelF,
 }
 
 impl Kind {
@@ -32,9 +34,10 @@ impl Kind {
             Kind::Tomb => "del",
             Kind::HashF => "hset-f",
             Kind::HashG => "hset-g",
+            Kind::HashDelF => "hdel-f",
         }
     }
-    pub const ALL: [Kind; 5] = [Kind::SetA, Kind::SetB, Kind::Tomb, Kind::HashF, Kind::HashG];
+    pub const ALL: [Kind; 6] = [Kind::SetA, Kind::SetB, Kind::Tomb, Kind::HashF, Kind::HashG, Kind::HashDelF];
 }
 
 /// An update as the command glue would produce it: (key, kind, stamp = (time, replica)).
@@ -74,6 +77,18 @@ impl Upd {
             Kind::HashG => {
                 let mut v = ReplicatedValue::new(r);
                 v.hash_set("g".to_string(), SDS::from_str("y"), &mut clock);
+                v
+            }
+            Kind::HashDelF => {
+                // what HSET f .. ; HDEL f leaves behind: field f is a tombstone carrying the HDEL's stamp
+                let mut v = ReplicatedValue::new(r);
+                v.hash_set("f".to_string(), SDS::from_str("x"), &mut clock);
+                if let Some(h) = v.get_hash_mut() {
+                    if let Some(l) = h.get_mut("f") {
+                        l.tombstone = true;
+                        l.value = None;
+                    }
+                }
                 v
             }
         };
